@@ -157,6 +157,19 @@ fn interactive<C: Suite>(ctx: &mut Ctx, g: u64, scheme: Scheme, chal: &str, idx:
             ("-v".into(), mk::<C>(scheme, u, -v), pk, pmsg.clone(), y),
             ("u<->v".into(), mk::<C>(scheme, v, u), pk, pmsg.clone(), y),
         ];
+        // y + 2^k: a verifier that binds only part of the challenge accepts some of these
+        {
+            let two = <Sc<C> as Field>::ONE + <Sc<C> as Field>::ONE;
+            let mut p = <Sc<C> as Field>::ONE;
+            for k in 0..255u32 {
+                let all = ctx.tier == crate::Tier::Thorough;
+                if all || [0u32, 1, 7, 8, 63, 64, 127, 128, 200, 246, 247, 248, 249, 250, 251, 252, 253, 254].contains(&k) {
+                    cases.push((format!("y+2^{k}"), pok, pk, pmsg.clone(), ProofCommitmentChallenge::<C>(y.0 + p)));
+                    cases.push((format!("y-2^{k}"), pok, pk, pmsg.clone(), ProofCommitmentChallenge::<C>(y.0 - p)));
+                }
+                p *= two;
+            }
+        }
         if !pmsg.is_empty() {
             let b = gen::below(&mut rng, pmsg.len() * 8);
             cases.push(("msg-bitflip".into(), pok, pk, gen::flip_bit(&pmsg, b), y));
@@ -167,7 +180,8 @@ fn interactive<C: Suite>(ctx: &mut Ctx, g: u64, scheme: Scheme, chal: &str, idx:
         }
         for (vn, p2, pk2, m2, y2) in cases {
             let Some(got) = ctx.guard("ProofOfKnowledge::verify", || d(&vn), || p2.verify(pk2, &m2, y2).is_ok()) else { continue };
-            ctx.expect(!got, &format!("C10/perturbed-accepted/interactive/{n}/{sn}/{vn}"), || { let mut x = d("a proof verifies after one component was changed"); x["variant"] = json!(vn); x });
+            let vclass = if vn.starts_with("y+2^") || vn.starts_with("y-2^") { "y+-2^k".to_string() } else { vn.clone() };
+            ctx.expect(!got, &format!("C10/perturbed-accepted/interactive/{n}/{sn}/{vclass}"), || { let mut x = d("a proof verifies after one component was changed"); x["variant"] = json!(vn); x });
             ctx.hit(&format!("{n}/{sn}/interactive/perturbed"), &[vn.as_bytes(), &pb]);
         }
         // finalize with a signature of another scheme
